@@ -6,6 +6,9 @@ require github.com/cube2222/octosql v0.0.0
 
 require (
 	github.com/awalterschulze/gographviz v2.0.3+incompatible // indirect
+	github.com/cespare/xxhash v1.1.0 // indirect
+	github.com/dgraph-io/ristretto v0.0.3 // indirect
+	github.com/golang/protobuf v1.5.3 // indirect
 	github.com/google/btree v1.1.2 // indirect
 	github.com/oklog/ulid/v2 v2.0.2 // indirect
 	github.com/pkg/errors v0.9.1 // indirect
@@ -13,6 +16,7 @@ require (
 	github.com/tidwall/btree v1.3.1 // indirect
 	github.com/zyedidia/generic v1.1.0 // indirect
 	golang.org/x/exp v0.0.0-20220414153411-bcd21879b8fd // indirect
+	google.golang.org/protobuf v1.30.0 // indirect
 )
 
 replace github.com/cube2222/octosql => /repo
